@@ -11,6 +11,8 @@ CONSTANTS
   MaxAdmits = 2
   AdmitSub = 3
   MinimalProofs = TRUE
+  WithForge = FALSE
+  ForgeTypes = {"A", "DS"}
   EmitCases = FALSE
 INIT Init
 NEXT Next
